@@ -31,3 +31,19 @@ Definition model_case (c : case) : store * list (list res) * list bool :=
 Definition check_case (c : case) : bool :=
   let '(s, rs, ds) := model_case c in
   list_eqb kv_eqb s (c_final c) && list_eqb (list_eqb res_eqb) rs (c_results c) && list_eqb Bool.eqb ds (c_done c).
+
+(* Operation-granular comparison, used for a case whose step-by-step comparison fails although every storage access of
+   the run happened while its thread held the lock and every operation took the lock exactly once: the code's pattern
+   of storage accesses then differs from the pinned one (one snapshot instead of one read per name, say), which the
+   property does not speak about.  The run is compared with the atomic semantics (Atomic.astep, the right-hand side of
+   locked_ops_atomic) executed in the observed order of lock acquisitions. *)
+Record acase := { a_case : case; a_order : list nat }.
+Definition model_case_atomic (ac : acase) : store * list (list res) * list bool :=
+  let c := a_case ac in
+  let f := fold_left (fun cf t => astep t cf) (a_order ac) (init (compile ns_name) (c_store c) (c_progs c)) in
+  let idx := seq 0 (length (c_progs c)) in
+  (shared f, map (fun i => r_results (tregs (threads f i))) idx, map (fun i => thread_done (threads f i)) idx).
+Definition check_case_atomic (ac : acase) : bool :=
+  let c := a_case ac in
+  let '(s, rs, ds) := model_case_atomic ac in
+  list_eqb kv_eqb s (c_final c) && list_eqb (list_eqb res_eqb) rs (c_results c) && list_eqb Bool.eqb ds (c_done c).
